@@ -374,9 +374,10 @@ def r3_path_param(c, facts):
     # both walk UriSegment::Variable of uri.path
     for q in ('oal_openapi::Builder::uri_params', 'oal_compiler::spec::Uri::pattern_with'):
         fn = c.anchor(R, q)
+        fam_nodes = [x for f2 in facts.family(fn) if f2.hir for x in hir_walk(f2.hir['body'])]
         walks = any('Variable' in [v for a in e['arms'] for v in pat_variants(a['pat'])] if e['k'] == 'match' else ('Variable' in pat_variants(e['pat']) if e['k'] == 'let' else False)
-                    for e, _ in hir_walk(fn.hir['body']) if e['k'] in ('match', 'let'))
-        path_field = any(e['k'] == 'field' and e['name'] == 'path' for e, _ in hir_walk(fn.hir['body']))
+                    for e, _ in fam_nodes if e['k'] in ('match', 'let'))
+        path_field = any(e['k'] == 'field' and e['name'] == 'path' for e, _ in fam_nodes)
         if walks and path_field:
             c.ok(R, {q.split('::')[-1]: 'walks UriSegment::Variable of uri.path'})
         else:
